@@ -144,6 +144,19 @@ def gen_inputs(ctx, bases):
             for ss, sl in (((1 << 64) - 2, 2), ((1 << 64) - 4, 2), ((1 << 64) - 4, 4), ((1 << 64) - 2, 1002)):
                 data = raw_file(rng, ver, w, [(0, 2, 0, 2), (ss, sl, 2, 2)], [0, 0, 0, 0])
                 add('edge-of-address-space', None, byteslit(data), data)
+    # tiny files with huge claims: segment counts the bytes cannot hold, segment lengths / starts near 2^60..2^64
+    for w in (8, 16, 32, 64):
+        for ver in range(4):
+            hdr = struct.pack('<HHQQ', 0x4a46, w, ver, 0) + (struct.pack('<QL', 0, 0) if ver else b'')
+            for cnt in (1 << 40, (1 << 64) - 1, 1 << 63, 3, 2):
+                body = bytes(rng.randrange(256) for _ in range(rng.choice((0, 8, 28, 32, 40))))
+                data = hdr[:12] + struct.pack('<Q', cnt) + hdr[20:] + body
+                add('huge-claims', None, byteslit(data), data)
+            for ss, sl, dl in ((0, 1 << 60, 2), (0, (1 << 64) - 2, 0), (1 << 62, 1 << 60, 2), (0, 1 << 60, 0),
+                               ((1 << 63), (1 << 63) - 2, 2), (0, 1000 + 2, 2), (0, 998 + 2, 2)):
+                data = raw_file(rng, ver, w, [(ss, sl, 0, dl), (sl + ss if ss + 2 * sl < (1 << 64) else 2, 2, 0, 2)][:rng.choice((1, 2))],
+                                [1, 2])
+                add('huge-claims', None, byteslit(data), data)
     # random byte strings, with and without a plausible header
     for _ in range(ctx.n(400, 6000)):
         n = rng.choice((0, 1, 5, 19, 20, 21, 31, 32, 33, 52, 64, 65, 100, rng.randrange(0, 200)))
@@ -214,6 +227,8 @@ def judge10(x, o, bases):
     if rd['cls'] == 2:
         v.append(({'kind': 'reader-other-exception', 'exc': rd['exc']},
                   f'Reader raised {rd["exc"]} ({rd.get("msg")}) instead of FlipJumpReadFjmException'))
+    if x['kind'] == 'huge-claims' and o.get('t_read', 0) > 5.0:
+        v.append(({'kind': 'reader-slow-on-tiny-file'}, f'Reader took {o["t_read"]} s on a {len(x["data"])}-byte file'))
     if o['run'] == 2:
         tab = 'not-loaded' if rd['cls'] != 0 else 'inconsistent' if table_defect(o['table'], o['pool']) else 'consistent'
         v.append(({'kind': 'run-other-exception', 'exc': o.get('run_exc'), 'table': tab},
@@ -224,6 +239,13 @@ def judge10(x, o, bases):
         if sub:
             v.append(({'kind': 'reader-accepts-inconsistent-table', 'sub': sub},
                       f'Reader accepts a file whose segment table is inconsistent ({sub}): table={o["table"]} pool={o["pool"]} words'))
+        # C10_bounded on the real Reader: entries / ranges bounded by the bytes, not by the values in the table
+        n, pool = o['nseg'], o['pool']
+        if not (len(rd['segs']) == n and o['hdr'] + 32 * n <= len(x['data']) and pool * o['wb'] <= o['fd_len']
+                and o['memsize'] <= n * (pool + 999) and len(rd['zeros']) <= n):
+            v.append(({'kind': 'allocation-exceeds-bound'},
+                      f'Reader built {o["memsize"]} memory entries / {len(rd["zeros"])} zero ranges / {len(rd["segs"])} segments from a '
+                      f'{len(x["data"])}-byte file with {n} table entries and a {pool}-word pool (bound: n*(pool+999) entries, n ranges)'))
         if x['kind'] == 'prefix':
             bi = bases[x['base']]['image']
             if (rd['segs'], rd['mem'], rd['zeros'], rd['w']) != (bi['segs'], bi['mem'], bi['zeros'], bi['w']):
@@ -278,7 +300,8 @@ def run(ctx):
             continue
         x, o = inputs[k], obs[k]
         pj = judge10(x, o, bases)
-        spec_py = not [s for s, _ in pj if s['kind'] != 'torn-prefix-loads-different-image']
+        spec_py = not [s for s, _ in pj if s['kind'] not in ('torn-prefix-loads-different-image', 'allocation-exceeds-bound',
+                                                           'reader-slow-on-tiny-file')]
         if bool(code & 2) != spec_py:
             ctx.broken_tie('spec10 (Coq) vs judge10 (python) disagree', json.dumps({'file': x['data'].hex(), 'coq': code})[:2000])
         if code & 1:
@@ -295,7 +318,9 @@ def run(ctx):
                             '(all k for the first files, structure boundaries + random k for the rest); each header/extension/'
                             'table field set to 0, 1, max, +-1, +2, one flipped bit, random; payload bytes damaged; trailing '
                             'garbage / second stream after the payload; crafted small tables; random strings with and without a '
-                            'plausible header.  Each opened with Reader() and fjm_run.run (native rebuilt from _fjcore.c, and fast). '
+                            'plausible header; tiny files with huge claims (segment_num 2^40..2^64-1 in a 20..72-byte file, lengths 2^60..2^64); the '
+                            'C10_bounded inequality (entries <= n*(pool+999), ranges <= n, table inside the bytes) is checked on every '
+                            'accepted file.  Each opened with Reader() and fjm_run.run (native rebuilt from _fjcore.c, and fast). '
                             'distinct = distinct byte strings; non-trivial = not an unmodified file')
     ctx.assumptions += ['liblzma is an oracle (the model is given the real decoder\'s answer on the payload); C10_torn assumes a '
                         'strict prefix of a raw LZMA2 stream does not decode (observed on every v3 prefix of this run)',
